@@ -113,7 +113,7 @@ def _cases(tier, seed):
     for N, R in [([3], [1, 1]), ([2, 3], [1, 2, 1]), ([2, 2, 3], [1, 1, 2, 1])]:
         cs.append({'scen': 'tt_apply_mask', 's': {'N': N, 'R': R, 'rows': 2, 'dtype': 'float64', 'negative': True}})
     # ---- shape level: symbolic mode sizes, symbolic integer indices and symbolic slice bounds
-    SH = {'shim': 'shape', 'scalar_mode': 'A', 'logic': None, 'max_paths': 3000 if not th else 20000, 'case_timeout_s': 200 if not th else 1500}
+    SH = {'shim': 'shape', 'scalar_mode': 'A', 'logic': None, 'max_paths': 3000 if not th else 12000, 'case_timeout_s': 200 if not th else 900}
     Bs = 3 if not th else 4
     S_ALL = ['slice', None, None, None]
     S_SS = ['slice', 'sym', 'sym', None]
@@ -126,9 +126,13 @@ def _cases(tier, seed):
         combos = list(itertools.product(kinds, repeat=d))
         if len(combos) > 24 and not th:
             combos = rng.sample(combos, 24)
+        if th and len(combos) > 80:
+            combos = rng.sample(combos, 80)
         for c in combos:
             if sum(1 for k in c if k != 'int' and 'sym' in k) > 2 and not th:
                 continue
+            if th and sum(sum(1 for v in k if v == 'sym') for k in c if k != 'int') > 4:
+                continue          # (more than four symbolic slice parameters: hours per case)
             cs.append({'scen': 'getitem_shape', 's': {'d': d, 'B': Bs, 'index': [k if isinstance(k, str) else list(k) for k in c]}, 'opts': SH})
         for pos in range(d + 1):
             idx = [S_S1 if i % 2 == 0 else 'int' for i in range(d)]
